@@ -11,9 +11,11 @@
      memo records its direct reads ([mo_flat]);
    - the observer clause [mo_obs] speaks about the memos that EXIST (a restored database has
      lost the memos of non-persisted functions and the value-less ones);
-   - no stamp-provenance clause (mo_stamp / ext_mono): the backdate-violation panic is not
-     excluded here, it is one of the allowed outcomes, like the panic of an uninitialised
-     function ingredient. *)
+   - changed_at stamps never decrease ([mo_stamp], [ext_mono], as in Core/DInv.v), across
+     restores as well: the stamp of a memo that a restore dropped is kept in a ghost table
+     ([ghost], [phi], [inv_ghost]); hence the backdate-violation assertion is unreachable.  The
+     only panics that may escape a request are an injected fault and the panic of an
+     uninitialised function ingredient ([dallowed]). *)
 From Salsa Require Import Base.
 From Salsa.Kern Require Import CoreK CoreKFacts.
 From Salsa.Core Require Import Model Spec SpecProofs Inv DurSem.
@@ -35,6 +37,30 @@ Notation durge := (durge prog NF).
 Notation clos := (clos prog NF).
 
 Definition lcs (s : db) (k : dur) : rev := last_changed (d_revs s) k.
+
+(* The stamp of a query: the changed_at of its memo, or, when the memo was dropped by a restore
+   (non-persisted function, value-less memo), the changed_at it had, kept in a ghost table
+   together with the revision it was verified at.  Stamps never decrease ([ext_mono]). *)
+Definition ghost := qkey -> option (rev * rev).
+
+Definition phi (s : db) (F : ghost) (d : qkey) : option rev :=
+  match d_memo s d with
+  | Some md => Some (m_changed md)
+  | None => option_map snd (F d)
+  end.
+
+(* the stamp c is at most the current stamp of the read x (an untracked read is stamped with
+   the revision of the run, which bounds every stamp) *)
+Definition sle (s : db) (F : ghost) (c : rev) (x : rd) : Prop :=
+  match x with
+  | RIn i => c <= f_changed (d_in s i)
+  | RQ d => exists c', phi s F d = Some c' /\ c <= c'
+  | _ => True
+  end.
+
+(* changed_at is bounded by the current stamp of something the run at revision v reads *)
+Definition prov (H : hist) (s : db) (F : ghost) (q : qkey) (v c : rev) : Prop :=
+  c <= 1 \/ exists x, In x (tr H v q) /\ sle s F c x.
 
 (* when the observer clause fires for an observer verified at v and d's memo md *)
 Definition obs_pre (H : hist) (D : dhist) (s : db) (v : rev) (d : qkey) (md : memo) : Prop :=
@@ -83,7 +109,7 @@ Inductive good (H : hist) (D : dhist) (s : db) (L : list edge) (v : rev) : qkey 
     (forall d', In (RQ d') (tr H rho d) -> ~ In (EQ d') L -> good H D s L v d') ->
     good H D s L v d.
 
-Record dmemo_ok (H : hist) (D : dhist) (s : db) (q : qkey) (m : memo) : Prop := {
+Record dmemo_ok (H : hist) (D : dhist) (F : ghost) (s : db) (q : qkey) (m : memo) : Prop := {
   mo_order : 1 <= m_verified m /\ m_changed m <= m_verified m /\ m_verified m <= cur s;
   mo_val : forall x, m_val m = Some x -> x = E H (m_verified m) q;
   mo_in : forall i, In (RIn i) (tr H (m_verified m) q) -> In (EIn i) (m_edges m);
@@ -95,6 +121,7 @@ Record dmemo_ok (H : hist) (D : dhist) (s : db) (q : qkey) (m : memo) : Prop := 
   mo_flat : fm = true \/ forall d, In (RQ d) (tr H (m_verified m) q) -> In (EQ d) (m_edges m);
   mo_durge : durge H D (m_verified m) (m_dur m) q;
   mo_dur3 : m_dur m <= 3;
+  mo_stamp : prov H s F q (m_verified m) (m_changed m);
   mo_obs : forall d md, clos H (m_verified m) q d -> d_memo s d = Some md ->
            obs_pre H D s (m_verified m) d md ->
            E H (m_verified m) d = E H (m_verified md) d /\ m_dur m <= m_dur md;
@@ -104,12 +131,12 @@ Record dmemo_ok (H : hist) (D : dhist) (s : db) (q : qkey) (m : memo) : Prop := 
             m_verified m <= m_verified md
 }.
 
-Lemma obs_of_memo H D s q m : dmemo_ok H D s q m -> obs_ok H D s q (m_verified m) (m_dur m).
+Lemma obs_of_memo H D F s q m : dmemo_ok H D F s q m -> obs_ok H D s q (m_verified m) (m_dur m).
 Proof.
-  intros [a b c d e f g h i j k]. constructor; auto. lia.
+  intros [a b c d e f g h i st j k]. constructor; auto. lia.
 Qed.
 
-Record DInv (H : hist) (D : dhist) (s : db) : Prop := {
+Record DInv (H : hist) (D : dhist) (F : ghost) (s : db) : Prop := {
   inv_cur : 1 <= cur s;
   inv_revs : revs_ok (d_revs s);
   inv_in : forall i r, f_changed (d_in s i) <= r -> r <= cur s -> sn_in (H r) i = f_val (d_in s i);
@@ -120,20 +147,24 @@ Record DInv (H : hist) (D : dhist) (s : db) : Prop := {
   (* the write rule: an input whose level had not been written after r is the same at r+1 *)
   inv_wr : forall r i, r < cur s -> lcs s (D r i) <= r ->
            sn_in (H (r + 1)) i = sn_in (H r) i /\ D (r + 1) i = D r i;
-  inv_memo : forall q m, d_memo s q = Some m -> dmemo_ok H D s q m;
+  inv_memo : forall q m, d_memo s q = Some m -> dmemo_ok H D F s q m;
+  (* a dropped memo is still an observer at the revision it was verified at, and its stamp has
+     a provenance *)
+  inv_ghost : forall d rho c, d_memo s d = None -> F d = Some (rho, c) ->
+              c <= rho /\ obs_ok H D s d rho 0 /\ prov H s F d rho c;
   (* flat mode: no input has, or ever had, a durability above LOW *)
   inv_lowD : fm = true -> forall r i, D r i = 0;
   inv_lowrev : fm = true -> forall k, 1 <= k -> lcs s k <= 1
 }.
 
 (* ---------------------------------------------------------------- stability from the write rule *)
-Lemma lcs_anti H D s k k' : DInv H D s -> k <= k' -> lcs s k' <= lcs s k.
-Proof. intros HI. apply lc_anti. apply (inv_revs _ _ _ HI). Qed.
+Lemma lcs_anti H D F s k k' : DInv H D F s -> k <= k' -> lcs s k' <= lcs s k.
+Proof. intros HI. apply lc_anti. apply (inv_revs _ _ _ _ HI). Qed.
 
-Lemma lcs_le_cur H D s k : DInv H D s -> lcs s k <= cur s.
-Proof. intros HI. apply lc_le_cur. apply (inv_revs _ _ _ HI). Qed.
+Lemma lcs_le_cur H D F s k : DInv H D F s -> lcs s k <= cur s.
+Proof. intros HI. apply lc_le_cur. apply (inv_revs _ _ _ _ HI). Qed.
 
-Lemma stable_now H D s k a : DInv H D s -> lcs s k <= a -> wstable H D k a (cur s).
+Lemma stable_now H D F s k a : DInv H D F s -> lcs s k <= a -> wstable H D k a (cur s).
 Proof.
   intros HI Hlc i Hi.
   assert (Hn : forall n r, r = a + N.of_nat n -> r <= cur s ->
@@ -142,21 +173,21 @@ Proof.
     - replace r with a by lia. split; reflexivity.
     - assert (Hr' : a + N.of_nat n <= cur s) by lia.
       destruct (IH (a + N.of_nat n) eq_refl Hr') as [A B].
-      destruct (inv_wr _ _ _ HI (a + N.of_nat n) i) as [A' B'].
+      destruct (inv_wr _ _ _ _ HI (a + N.of_nat n) i) as [A' B'].
       + lia.
-      + rewrite B. pose proof (lcs_anti H D s k (D a i) HI Hi). lia.
+      + rewrite B. pose proof (lcs_anti H D F s k (D a i) HI Hi). lia.
       + replace r with (a + N.of_nat n + 1) by lia. split; congruence. }
   intros r Ha Hb. apply (Hn (N.to_nat (r - a))); [lia | exact Hb].
 Qed.
 
-Lemma stable_never H D s a : DInv H D s -> 1 <= a -> wstable H D 3 a (cur s).
+Lemma stable_never H D F s a : DInv H D F s -> 1 <= a -> wstable H D 3 a (cur s).
 Proof.
-  intros HI Ha. apply (stable_now H D s 3 a HI).
+  intros HI Ha. apply (stable_now H D F s 3 a HI).
   unfold lcs. rewrite lc_never by lia. exact Ha.
 Qed.
 
 (* ---------------------------------------------------------------- extension within a revision *)
-Record dext (H : hist) (D : dhist) (s s' : db) : Prop := {
+Record dext (H : hist) (D : dhist) (F : ghost) (s s' : db) : Prop := {
   ext_revs : d_revs s' = d_revs s;
   ext_in : d_in s' = d_in s;
   ext_cell : d_cell s' = d_cell s;
@@ -169,28 +200,33 @@ Record dext (H : hist) (D : dhist) (s s' : db) : Prop := {
   (* memos are only stored with verified_at = the current revision *)
   ext_old : forall q m', d_memo s' q = Some m' -> m_verified m' < cur s -> d_memo s q = Some m';
   (* observers stay observers *)
-  ext_obs : forall g w k, obs_ok H D s g w k -> obs_ok H D s' g w k
+  ext_obs : forall g w k, obs_ok H D s g w k -> obs_ok H D s' g w k;
+  (* stamps never decrease *)
+  ext_mono : forall d c, phi s F d = Some c -> exists c', phi s' F d = Some c' /\ c <= c'
 }.
 
-Lemma dext_refl H D s : dext H D s s.
+Lemma dext_refl H D F s : dext H D F s s.
 Proof.
   constructor; auto.
-  intros q m Hm Hv. exists m. split; [exact Hm|]. split; [exact Hv | lia].
+  - intros q m Hm Hv. exists m. split; [exact Hm|]. split; [exact Hv | lia].
+  - intros d c Hc. exists c. split; [exact Hc | lia].
 Qed.
 
-Lemma dext_cur H D s s' : dext H D s s' -> cur s' = cur s.
-Proof. intros [Hr _ _ _ _ _ _ _ _]. unfold cur. rewrite Hr. reflexivity. Qed.
+Lemma dext_cur H D F s s' : dext H D F s s' -> cur s' = cur s.
+Proof. intros [Hr _ _ _ _ _ _ _ _ _]. unfold cur. rewrite Hr. reflexivity. Qed.
 
-Lemma dext_trans H D s1 s2 s3 : dext H D s1 s2 -> dext H D s2 s3 -> dext H D s1 s3.
+Lemma dext_trans H D F s1 s2 s3 : dext H D F s1 s2 -> dext H D F s2 s3 -> dext H D F s1 s3.
 Proof.
-  intros H12 H23. pose proof (dext_cur _ _ _ _ H12) as Hc.
-  destruct H12 as [a1 b1 c1 d1 g1 e1 f1 o1 p1], H23 as [a2 b2 c2 d2 g2 e2 f2 o2 p2].
+  intros H12 H23. pose proof (dext_cur _ _ _ _ _ H12) as Hc.
+  destruct H12 as [a1 b1 c1 d1 g1 e1 f1 o1 p1 q1], H23 as [a2 b2 c2 d2 g2 e2 f2 o2 p2 q2].
   constructor; try congruence; auto.
   - intros q m Hm Hv Hx. apply e2; [apply e1; assumption | rewrite Hc; exact Hv | exact Hx].
   - intros q m Hm Hv. destruct (f1 q m Hm Hv) as (m' & Hm' & Hv' & Hd').
     destruct (f2 q m' Hm') as (m'' & Hm'' & Hv'' & Hd''); [rewrite Hc; exact Hv'|].
     exists m''. split; [exact Hm''|]. split; [rewrite <- Hc; exact Hv'' | lia].
   - intros q m' Hm' Hv. apply o1; [|exact Hv]. apply o2; [exact Hm' | rewrite Hc; exact Hv].
+  - intros d c Hd. destruct (q1 d c Hd) as (c' & Hc' & Hle). destruct (q2 d c' Hc') as (c'' & Hc'' & Hle').
+    exists c''. split; [exact Hc'' | lia].
 Qed.
 
 (* a computation for a query of rank < k leaves memos of rank >= k alone *)
@@ -249,38 +285,50 @@ Proof.
   - eapply good_exp; eauto.
 Qed.
 
-Lemma dmemo_ok_core_eq H D s s' q m : dcore_eq s s' -> dmemo_ok H D s q m -> dmemo_ok H D s' q m.
+Lemma phi_same s s' F d : d_memo s' = d_memo s -> phi s' F d = phi s F d.
+Proof. intros Hm. unfold phi. rewrite Hm. reflexivity. Qed.
+
+Lemma sle_same s s' F c x : d_in s' = d_in s -> d_memo s' = d_memo s -> sle s F c x -> sle s' F c x.
 Proof.
-  intros Hc Hm. pose proof (dcore_eq_cur _ _ Hc) as Hcur.
-  pose proof Hc as (Hr & Hi & _ & Hmm).
-  destruct Hm as [a b c d e f g h i j k].
-  constructor; rewrite ?Hcur; auto.
-  - intros Hu0 d0 Hd0 Hn. apply (good_mono H D s s'); [lia | intros; eapply obs_ok_core_eq; eassumption | auto].
-  - intros d0 md Hd0 Hmd Hp. apply (j d0 md Hd0); [rewrite <- Hmm; exact Hmd|].
-    apply (obs_pre_core_eq H D s' s); [congruence | exact Hp].
-  - intros Hz d0 md Hd0 Hmd. apply (k Hz d0 md Hd0). rewrite <- Hmm; exact Hmd.
+  intros Hi Hm. destruct x as [i | d | cc |]; cbn; auto.
+  - rewrite Hi. auto.
+  - rewrite (phi_same s s' F d Hm). auto.
 Qed.
 
-Lemma dmemo_ok_same H D s s' q m :
-  d_revs s' = d_revs s -> d_memo s' = d_memo s -> dmemo_ok H D s q m -> dmemo_ok H D s' q m.
+Lemma prov_same H s s' F q v c :
+  d_in s' = d_in s -> d_memo s' = d_memo s -> prov H s F q v c -> prov H s' F q v c.
 Proof.
-  intros Hr Hmm Hm.
+  intros Hi Hm [A | (x & Hx & Hs)]; [left; exact A | right].
+  exists x. split; [exact Hx | apply (sle_same s s'); assumption].
+Qed.
+
+Lemma dmemo_ok_same H D F s s' q m :
+  d_revs s' = d_revs s -> d_in s' = d_in s -> d_memo s' = d_memo s ->
+  dmemo_ok H D F s q m -> dmemo_ok H D F s' q m.
+Proof.
+  intros Hr Hi Hmm Hm.
   assert (Hcur : cur s' = cur s) by (unfold cur; rewrite Hr; reflexivity).
-  destruct Hm as [a b c d e f g h i j k].
+  destruct Hm as [a b c d e f g h i st j k].
   constructor; rewrite ?Hcur; auto.
   - intros Hu0 d0 Hd0 Hn. apply (good_mono H D s s'); [lia | intros; eapply obs_ok_same; eassumption | auto].
+  - apply (prov_same H s s'); assumption.
   - intros d0 md Hd0 Hmd Hp. apply (j d0 md Hd0); [rewrite <- Hmm; exact Hmd|].
     apply (obs_pre_core_eq H D s' s); [congruence | exact Hp].
   - intros Hz d0 md Hd0 Hmd. apply (k Hz d0 md Hd0). rewrite <- Hmm; exact Hmd.
 Qed.
 
-Lemma DInv_core_eq H D s s' : dcore_eq s s' -> DInv H D s -> DInv H D s'.
+Lemma dmemo_ok_core_eq H D F s s' q m : dcore_eq s s' -> dmemo_ok H D F s q m -> dmemo_ok H D F s' q m.
+Proof. intros (Hr & Hi & _ & Hmm). apply dmemo_ok_same; assumption. Qed.
+
+Lemma DInv_core_eq H D F s s' : dcore_eq s s' -> DInv H D F s -> DInv H D F s'.
 Proof.
   intros Hc HI. pose proof (dcore_eq_cur _ _ Hc) as Hcur.
   pose proof Hc as (Hr & Hi & Hce & Hm).
-  destruct HI as [a a' b b' c d e f g l1 l2].
+  destruct HI as [a a' b b' c d e f g gh l1 l2].
   constructor; unfold lcs in *; rewrite ?Hcur, ?Hi, ?Hce, ?Hm, ?Hr; auto.
-  intros q m Hq. apply (dmemo_ok_core_eq H D s); [exact Hc | apply g; exact Hq].
+  - intros q m Hq. apply (dmemo_ok_core_eq H D F s); [exact Hc | apply g; exact Hq].
+  - intros d0 rho c0 Hn HF. destruct (gh d0 rho c0 Hn HF) as (A & B & C0).
+    split; [exact A|]. split; [apply (obs_ok_core_eq H D s s' _ _ _ Hc B) | apply (prov_same H s s'); assumption].
 Qed.
 
 (* ---------------------------------------------------------------- storing a memo *)
@@ -319,35 +367,74 @@ Proof.
   - apply (d d0 md Hd0 Hmd). exact Hp0.
 Qed.
 
-Lemma DInv_store H D s q m :
-  DInv H D s ->
+Lemma phi_store s F q m d c :
+  (forall c0, phi s F q = Some c0 -> c0 <= m_changed m) ->
+  phi s F d = Some c -> exists c', phi (store s q m) F d = Some c' /\ c <= c'.
+Proof.
+  intros Hmono Hd. unfold phi, store; cbn. unfold upd.
+  destruct (key_eqb_spec q d) as [<- | Hne].
+  - exists (m_changed m). split; [reflexivity | apply Hmono; exact Hd].
+  - exists c. split; [exact Hd | lia].
+Qed.
+
+Lemma sle_mono s s' F c x :
+  d_in s' = d_in s ->
+  (forall d c0, phi s F d = Some c0 -> exists c', phi s' F d = Some c' /\ c0 <= c') ->
+  sle s F c x -> sle s' F c x.
+Proof.
+  intros Hi Hm. destruct x as [i | d | cc |]; cbn; auto.
+  - rewrite Hi. auto.
+  - intros (c0 & Hc0 & Hle). destruct (Hm d c0 Hc0) as (c' & Hc' & Hle'). exists c'. split; [exact Hc' | lia].
+Qed.
+
+Lemma prov_mono H s s' F q v c :
+  d_in s' = d_in s ->
+  (forall d c0, phi s F d = Some c0 -> exists c', phi s' F d = Some c' /\ c0 <= c') ->
+  prov H s F q v c -> prov H s' F q v c.
+Proof.
+  intros Hi Hm [A | (x & Hx & Hs)]; [left; exact A | right].
+  exists x. split; [exact Hx | apply (sle_mono s s'); assumption].
+Qed.
+
+Lemma DInv_store H D F s q m :
+  DInv H D F s ->
   m_verified m = cur s ->
-  dmemo_ok H D (store s q m) q m ->
+  dmemo_ok H D F (store s q m) q m ->
   (forall g w k, obs_ok H D s g w k -> clos H w g q ->
      obs_pre H D s w q m ->
      E H w q = E H (cur s) q /\ k <= m_dur m) ->
   (forall m0, d_memo s q = Some m0 -> m_verified m0 = cur s ->
      (m_val m0 <> None -> m0 = m) /\ m_dur m0 <= m_dur m) ->
-  DInv H D (store s q m) /\ dext H D s (store s q m).
+  (* the stamp does not decrease *)
+  (forall c0, phi s F q = Some c0 -> c0 <= m_changed m) ->
+  DInv H D F (store s q m) /\ dext H D F s (store s q m).
 Proof.
-  intros HI Hv Hok Hobs Hsame.
+  intros HI Hv Hok Hobs Hsame Hmono.
   assert (Hall : forall g w k, obs_ok H D s g w k -> obs_ok H D (store s q m) g w k).
   { intros g w k Ho. apply obs_store; [exact Hv | exact Ho|]. intros Hcl Hp. apply (Hobs g w k Ho Hcl Hp). }
-  destruct HI as [a a' b b' c d e f g l1 l2].
+  assert (Hphi : forall d c0, phi s F d = Some c0 -> exists c', phi (store s q m) F d = Some c' /\ c0 <= c').
+  { intros d c0. apply phi_store. exact Hmono. }
+  destruct HI as [a a' b b' c d e f g gh l1 l2].
   split.
   - constructor; rewrite ?cur_store; auto.
-    intros p mp Hp. unfold store in Hp; cbn in Hp. unfold upd in Hp.
-    destruct (key_eqb_spec q p) as [<- | Hne].
-    + injection Hp as <-. exact Hok.
-    + specialize (g p mp Hp). pose proof (obs_of_memo _ _ _ _ _ g) as Hop.
-      destruct g as [g1 g2 g3 g4 g5 g6 g7 g8 g9 g10 g12].
-      constructor; rewrite ?cur_store; auto.
-      * intros Hu0 d0 Hd0 Hn. apply (good_mono H D s); [rewrite cur_store; lia | exact Hall | auto].
-      * apply (ob_obs _ _ _ _ _ _ (Hall _ _ _ Hop)).
-      * intros Hz d0 md Hd0 Hmd. unfold store in Hmd; cbn in Hmd. unfold upd in Hmd.
-        destruct (key_eqb_spec q d0) as [<- | Hne0].
-        -- injection Hmd as <-. rewrite Hv. lia.
-        -- apply (g12 Hz d0 md Hd0 Hmd).
+    + intros p mp Hp. unfold store in Hp; cbn in Hp. unfold upd in Hp.
+      destruct (key_eqb_spec q p) as [<- | Hne].
+      * injection Hp as <-. exact Hok.
+      * specialize (g p mp Hp). pose proof (obs_of_memo _ _ _ _ _ _ g) as Hop.
+        destruct g as [g1 g2 g3 g4 g5 g6 g7 g8 g9 gst g10 g12].
+        constructor; rewrite ?cur_store; auto.
+        -- intros Hu0 d0 Hd0 Hn. apply (good_mono H D s); [rewrite cur_store; lia | exact Hall | auto].
+        -- apply (prov_mono H s (store s q m)); [reflexivity | exact Hphi | exact gst].
+        -- apply (ob_obs _ _ _ _ _ _ (Hall _ _ _ Hop)).
+        -- intros Hz d0 md Hd0 Hmd. unfold store in Hmd; cbn in Hmd. unfold upd in Hmd.
+           destruct (key_eqb_spec q d0) as [<- | Hne0].
+           ++ injection Hmd as <-. rewrite Hv. lia.
+           ++ apply (g12 Hz d0 md Hd0 Hmd).
+    + intros d0 rho c0 Hn HF. unfold store in Hn; cbn in Hn. unfold upd in Hn.
+      destruct (key_eqb_spec q d0) as [<- | Hne]; [discriminate|].
+      destruct (gh d0 rho c0 Hn HF) as (A & B & C0).
+      split; [exact A|]. split; [apply Hall; exact B|].
+      apply (prov_mono H s (store s q m)); [reflexivity | exact Hphi | exact C0].
   - constructor; try reflexivity; auto.
     + intros p mp Hp Hvp Hxp. unfold store; cbn. unfold upd.
       destruct (key_eqb_spec q p) as [<- | Hne]; [|exact Hp].
@@ -369,21 +456,20 @@ Proof.
 Qed.
 
 (* ---------------------------------------------------------------- panics that may escape a Get *)
-(* the backdate-violation assertion (not excluded for this model), an injected fault while some
-   fault switch is on, and the panic of an uninitialised function ingredient while some
-   function ingredient is uninitialised *)
+(* an injected fault while some fault switch is on, and the panic of an uninitialised function
+   ingredient while some function ingredient is uninitialised (the backdate-violation assertion
+   of debug builds is unreachable: stamps never decrease, [ext_mono]) *)
 Definition dallowed (s : db) (p : ppanic) : Prop :=
-  p = PB PBackdate \/ (p = PB PInjected /\ exists c, d_pcell s c <> 0) \/
+  (p = PB PInjected /\ exists c, d_pcell s c <> 0) \/
   (p = PUninit /\ exists fam, d_init s fam = false).
 
 Lemma dallowed_ext s s' p :
   d_pcell s' = d_pcell s -> (forall fam, d_init s fam = true -> d_init s' fam = true) ->
   dallowed s' p -> dallowed s p.
 Proof.
-  intros He Hi [-> | [[-> (c & Hc)] | [-> (fam & Hf)]]].
-  - left; reflexivity.
-  - right; left. split; [reflexivity|]. exists c. rewrite <- He. exact Hc.
-  - right; right. split; [reflexivity|]. exists fam.
+  intros He Hi [[-> (c & Hc)] | [-> (fam & Hf)]].
+  - left. split; [reflexivity|]. exists c. rewrite <- He. exact Hc.
+  - right. split; [reflexivity|]. exists fam.
     destruct (d_init s fam) eqn:Hs; [|reflexivity]. rewrite (Hi fam Hs) in Hf. discriminate.
 Qed.
 
